@@ -106,6 +106,7 @@ type Sim struct {
 	Stats   map[string]uint64
 	// Hook called (with the baton held) at every yield with the site label.
 	OnYield func(site string)
+	yw      *yieldWaiter
 	// SwitchInsideOp counts preemptions that happened while HarnessFlag was set
 	// (the harness sets it while a client request is in flight).
 	InFlight       int
@@ -383,6 +384,22 @@ func (s *Sim) yield(site string) {
 	if s.OnYield != nil {
 		s.OnYield(site)
 	}
+	if w := s.yw; w != nil && s.cur != w.t {
+		w.k--
+		if w.k <= 0 && w.t.state == stBlocked {
+			// the k-th scheduling point of the other tasks: the waiting task runs now,
+			// in the middle of whatever the current task was doing
+			w.fired = true
+			s.yw = nil
+			s.Stats["yield-count-wakeup"]++
+			s.cur.state = stReady
+			if s.InFlight > 0 {
+				s.SwitchInFlight++
+			}
+			s.switchTo(w.t)
+			return
+		}
+	}
 	if s.cfg.SlowPermille > 0 && s.timers.Len() > 0 && !(GlobalMaxPreempt >= 0 && int(s.Preempt) >= GlobalMaxPreempt) &&
 		s.Tape.Next(1000) < s.cfg.SlowPermille {
 		if s.skipped < GlobalSkipPreempt {
@@ -548,6 +565,32 @@ func Sleep(d time.Duration) {
 	done := false
 	s.addTimer(d, func() { done = true })
 	s.block(func() bool { return done }, "sleep")
+}
+
+type yieldWaiter struct {
+	t     *Task
+	k     int
+	fired bool
+}
+
+// WaitYields parks the calling task until the other tasks have passed k
+// scheduling points (then it is resumed at once, preempting whoever runs), or
+// until the timeout has elapsed in virtual time. It reports whether the count
+// was reached. The harness uses it to place an event (a shutdown request) at
+// an arbitrary point inside other tasks' work rather than at a quiescent
+// instant, which is all a Sleep can reach.
+func WaitYields(k int, timeout time.Duration) bool {
+	s := S
+	s.checkKilled()
+	w := &yieldWaiter{t: s.cur, k: k}
+	s.yw = w
+	timedOut := false
+	s.addTimer(timeout, func() { timedOut = true })
+	s.block(func() bool { return w.fired || timedOut }, "wait-yields")
+	if s.yw == w {
+		s.yw = nil
+	}
+	return w.fired
 }
 
 // Ticker mirrors time.Ticker.
